@@ -186,6 +186,23 @@ def write_replay(prop: str, failure: Failure, seed: int) -> Path:
     return p
 
 
+def _bounded_samples(samples: list, keep: int = 8, limit: int = 6000) -> list:
+    """The evidence file stays small: the `keep` smallest samples, each rendered in at most `limit` characters (a sample
+    that is larger - a 300-record batch, a 128 KiB aligned batch - is kept as a truncated rendering with its real size)."""
+    rendered = []
+    for smp in samples:
+        try:
+            text = json.dumps(smp, default=_jsonable)
+        except Exception:
+            text = repr(smp)
+        rendered.append((len(text), text, smp))
+    rendered.sort(key=lambda r: r[0])
+    out = []
+    for size, text, smp in rendered[:keep]:
+        out.append(smp if size <= limit else {"truncated_sample": text[:limit], "full_size_chars": size})
+    return out
+
+
 def finish(ctx: Ctx, rep: Report) -> int:
     wall = time.time() - ctx.t0
     distinct = (
@@ -197,7 +214,7 @@ def finish(ctx: Ctx, rep: Report) -> int:
         "evaluations": rep.evaluations,
         "distinct_nontrivial": distinct,
         "rule": rep.rule,
-        "samples": rep.samples[:8],
+        "samples": _bounded_samples(rep.samples),
         "labels": dict(sorted(rep.labels.items())),
         "exhaustive": rep.exhaustive,
     }
